@@ -1,43 +1,64 @@
 (* C20 -- Query commands agree with the graph and predict rebuilds.
    Only statements, each closed by [exact] of a lemma from Select_proofs.v.
-   [deps_t] / [rdeps_t] are the code's path enumerations (GetAncestors / GetDescendants),
-   [deps_query] / [rdeps_query] / [owners] / [list_query] the printed, sorted lines.
+   [deps_t] / [rdeps_t] are the node lists GetAncestors / GetDescendants return (depth-first with a
+   visited map, since the repair of C19-F2/F3), [deps_query] / [rdeps_query] / [owners] /
+   [list_query] the printed, sorted lines (label.PrintSorted compacts the sorted list since the
+   repair of C20-F1).
    (C20_rebuild_predicted needs the build model and is stated with it, not here.) *)
 From Grog Require Import Str Label Graph Select Select_proofs.
 
 (* deps -t / rdeps -t contain exactly the transitive dependencies / dependants ... *)
 Theorem C20_deps_exact : forall g n x, topo g -> (In x (deps_t g n) <-> reach g x n).
-Proof. exact ancestors_paths_exact. Qed.
+Proof. exact deps_t_exact. Qed.
 Print Assumptions C20_deps_exact.
 
 Theorem C20_rdeps_exact : forall g n x, topo g -> (In x (rdeps_t g n) <-> reach g n x).
-Proof. exact descendants_paths_exact. Qed.
+Proof. exact rdeps_t_exact. Qed.
 Print Assumptions C20_rdeps_exact.
 
-(* ... but NOT each label once: REFUTED (known finding C20-F1), on the indices and on the
-   printed lines (the diamond prints its base twice) *)
-Theorem C20_nodup_refuted : exists g n, topo g /\ ~ NoDup (deps_t g n).
-Proof. exact deps_nodup_refuted. Qed.
-Print Assumptions C20_nodup_refuted.
+(* ... each node once (formerly REFUTED: C20_nodup_refuted / C20_rdeps_nodup_refuted, finding C20-F1) ... *)
+Theorem C20_deps_nodup : forall g n, NoDup (deps_t g n).
+Proof. exact deps_t_nodup. Qed.
+Print Assumptions C20_deps_nodup.
 
-Theorem C20_rdeps_nodup_refuted : exists g n, topo g /\ ~ NoDup (rdeps_t g n).
-Proof. exact rdeps_nodup_refuted. Qed.
-Print Assumptions C20_rdeps_nodup_refuted.
+Theorem C20_rdeps_nodup : forall g n, NoDup (rdeps_t g n).
+Proof. exact rdeps_t_nodup. Qed.
+Print Assumptions C20_rdeps_nodup.
 
-Theorem C20_printed_nodup_refuted : exists cfg ns g n, topo g /\ ~ NoDup (deps_query cfg ns g n true).
-Proof. exact deps_query_nodup_refuted. Qed.
-Print Assumptions C20_printed_nodup_refuted.
+(* ... and every query prints each label once, transitive or direct, even when a dependency is declared
+   twice (formerly REFUTED: C20_printed_nodup_refuted) *)
+Theorem C20_deps_printed_nodup : forall cfg ns g n t, NoDup (deps_query cfg ns g n t).
+Proof. exact deps_query_nodup. Qed.
+Print Assumptions C20_deps_printed_nodup.
 
-(* the de-duplicated enumerations are exact and duplicate free *)
-Theorem C20_deps_dedup_exact : forall g n, topo g ->
-  NoDup (ancestors_set g n) /\ forall x, In x (ancestors_set g n) <-> reach g x n.
-Proof. exact ancestors_set_exact. Qed.
-Print Assumptions C20_deps_dedup_exact.
+Theorem C20_rdeps_printed_nodup : forall cfg ns g n t, NoDup (rdeps_query cfg ns g n t).
+Proof. exact rdeps_query_nodup. Qed.
+Print Assumptions C20_rdeps_printed_nodup.
 
-Theorem C20_rdeps_dedup_exact : forall g n, topo g ->
-  NoDup (descendants_set g n) /\ forall x, In x (descendants_set g n) <-> reach g n x.
-Proof. exact descendants_set_exact. Qed.
-Print Assumptions C20_rdeps_dedup_exact.
+Theorem C20_owners_printed_nodup : forall ns files, NoDup (owners ns files).
+Proof. exact owners_nodup. Qed.
+Print Assumptions C20_owners_printed_nodup.
+
+(* the diamond prints its base once; a dependency declared twice is printed once *)
+Theorem C20_diamond_printed :
+  deps_query all_cfg dia_nodes diamond 3 true =
+  [dslash ++ ch_colon :: w_al; dslash ++ ch_colon :: w_plain; dslash ++ ch_colon :: w_x].
+Proof. exact deps_query_diamond. Qed.
+Print Assumptions C20_diamond_printed.
+
+Theorem C20_declared_twice_printed :
+  deps_query all_cfg dia_nodes [[]; [0; 0]] 1 false = [dslash ++ ch_colon :: w_plain].
+Proof. exact deps_query_declared_twice. Qed.
+Print Assumptions C20_declared_twice_printed.
+
+(* the node lists are the de-duplicated enumerations of all dependency paths *)
+Theorem C20_deps_is_dedup : forall g n x, topo g -> (In x (deps_t g n) <-> In x (ancestors_set g n)).
+Proof. exact deps_t_is_ancestors_set. Qed.
+Print Assumptions C20_deps_is_dedup.
+
+Theorem C20_rdeps_is_dedup : forall g n x, topo g -> (In x (rdeps_t g n) <-> In x (descendants_set g n)).
+Proof. exact rdeps_t_is_descendants_set. Qed.
+Print Assumptions C20_rdeps_is_dedup.
 
 (* mutual inverses *)
 Theorem C20_inverse : forall g n x, topo g -> (In x (deps_t g n) <-> In n (rdeps_t g x)).
